@@ -198,8 +198,12 @@ def check_default(bdir, cwd):
     seen = 0
     for exe, opt, sin, sout in (("btcdeb", "-d", "pipe", "pipe"), ("btcdeb", "--default-flags", "pipe", "pipe"), ("btcdeb", "-d", "pty", "pipe"),
                                 ("btcdeb", "-d", "pipe", "pty"), ("btcdeb", "-d", "pty", "pty"), ("btcdeb_tty", "-d", "pipe", "pipe")):
+        if pu.hang_abort(cwd):
+            break
         r = pu.run_proc([os.path.join(bdir, exe), opt], data=b"\n", stdin=sin, stdout=sout, cwd=cwd)
         n += 1
+        if r["hang"]:
+            pu.hang_abort(cwd, True, limit=1)
         rp = {"kind": "default", "exe": exe, "opt": opt, "stdin": sin, "stdout": sout}
         where = "%s %s (stdin %s, stdout %s)" % (exe, opt, sin, sout)
         if r["hang"] or pu.crash_class(r) or r["rc"] != 0:
